@@ -191,7 +191,8 @@ func (x *expander) macro(m string, args []string, after string) (string, int) {
 	case "YIELDT":
 		// a yield with an explicit type argument: YIELDT(T, e)
 		if x.ref {
-			return "y.Yield(" + args[1] + ")", 0
+			// the type argument converts an untyped operand: Yield[float64](1) yields a float64
+			return "y.Yield((" + args[0] + ")(" + args[1] + "))", 0
 		}
 		return x.q("Yield") + "[" + args[0] + "](" + args[1] + ")", 0
 	case "YIELDFROMT":
